@@ -114,6 +114,26 @@ fn build(c: &StructCase) -> (Rc<LNode>, Option<Rc<LNode>>, usize) {
                     (None, None)
                 }
             }
+            // comb whose leaf is handed to the cascade before the spine successor
+            4 => {
+                if i % 2 == 0 {
+                    (
+                        if i + 1 < n { Some(i + 1) } else { None },
+                        if i + 2 < n { Some(i + 2) } else { None },
+                    )
+                } else {
+                    (None, None)
+                }
+            }
+            // spine with a two-node twig per spine node (ids 3k spine, 3k+1 -> 3k+2 twig)
+            5 => match i % 3 {
+                0 => (
+                    if i + 1 < n { Some(i + 1) } else { None },
+                    if i + 3 < n { Some(i + 3) } else { None },
+                ),
+                1 => (if i + 1 < n { Some(i + 1) } else { None }, None),
+                _ => (None, None),
+            },
             _ => (if i + 1 < n { Some(i + 1) } else { None }, None),
         }
     };
@@ -189,7 +209,7 @@ pub fn c06_strategy(t: Tier) -> BoxedStrategy<Value> {
     let maxn = t.pick(20_000, 1_000_000);
     (
         log_uniform(maxn),
-        0u8..3,
+        prop_oneof![Just(0u8), Just(1u8), Just(2u8), Just(4u8), Just(5u8)],
         0u8..48,
         0u8..3,
         any::<bool>(),
@@ -286,7 +306,7 @@ pub fn exec_c06(_prop: &str, v: &Value) -> Report {
     rep.count("nodes", n);
     rep.count("epochs_to_reclaim", delta as u64);
     rep.count("rounds", rounds);
-    rep.label(["chain", "tree", "comb", "chain"][c.shape as usize % 4]);
+    rep.label(["chain", "tree", "comb", "chain", "comb-leaf-first", "spine-with-twigs"][c.shape as usize % 6]);
     if held.is_some() {
         rep.label("external-holder");
     }
@@ -303,8 +323,8 @@ pub fn exec_c06(_prop: &str, v: &Value) -> Report {
 pub fn c07_strategy(t: Tier) -> BoxedStrategy<Value> {
     let maxn = t.pick(300_000, 4_000_000);
     (
-        prop_oneof![3 => log_uniform(maxn), 1 => (2048u32..maxn)],
-        0u8..4,
+        prop_oneof![2 => log_uniform(maxn), 2 => (2048u32..maxn)],
+        0u8..6,
         0u8..20,
         any::<bool>(),
         prop_oneof![Just(0u32), Just(2048u32), Just(1024u32), Just(512u32)],
@@ -367,7 +387,7 @@ pub fn exec_c07(_prop: &str, v: &Value) -> Report {
     rep.nontrivial = c.n >= 2048;
     rep.count("nodes", n);
     rep.count("rounds", rounds);
-    rep.label(["chain", "tree", "comb", "chain-edges-left-to-Drop"][c.shape as usize % 4]);
+    rep.label(["chain", "tree", "comb", "chain-edges-left-to-Drop", "comb-leaf-first", "spine-with-twigs"][c.shape as usize % 6]);
     rep.label(&format!("stack{}KiB", if c.stack_kib == 0 { 8192 } else { c.stack_kib }));
     rep
 }
